@@ -452,6 +452,34 @@ class Ctx:
                 common = concerned if common is None else (common & concerned)
         return common
 
+    def validator_present(self, fn, path, local=()):
+        """The path is present in EVERY accepted form (OK disjunct) of every command reaching fn that is compatible with what fn itself
+        has established (`local` atoms) - i.e. no accepted request can make request[...path] fail here."""
+        cmds = self.cmds_of.get(fn.qualname)
+        if not cmds:
+            return False
+        seen = False
+        for cmd in cmds:
+            for dj in self.ok.get(cmd, []):
+                if _contradicts(dj, local):
+                    continue
+                seen = True
+                if not any(a.kind in ("present", "bip32") and a.path == path for a in dj):
+                    return False
+        return seen
+
+
+def _contradicts(dj, local):
+    """a local atom that cannot hold together with disjunct dj (presence against absence of the same path)"""
+    pres = {a.path for a in dj if a.kind in ("present", "bip32")}
+    absn = {a.path for a in dj if a.kind == "absent"}
+    for a in local:
+        if a.kind in ("present", "bip32") and a.path in absn:
+            return True
+        if a.kind == "absent" and a.path in pres:
+            return True
+    return False
+
 
 def _type_atoms(atoms, path):
     return {a.args[0] for a in atoms if a.kind in ("type",) and a.path == path}
@@ -602,9 +630,32 @@ class Prims:
             elif nm == "len" and isinstance(f, ast.Name) and n.args:
                 out += self._needs_type(n, n.args[0], fn, sc, {"list", "str", "dict", "bytes"}, "len()")
             elif nm == "int" and isinstance(f, ast.Name) and n.args:
-                if any(is_client(o) for o in self.origins(n.args[0], fn, sc)):
-                    self.record(fn, n, "int()", "raises", "ValueError")
-                    out.append(("ValueError", f"int({norm(n.args[0])[:30]}) on client data"))
+                cl_ = [o for o in self.origins(n.args[0], fn, sc) if is_client(o)]
+                if cl_:
+                    # int(v): ValueError for a non-numeric string / NaN, TypeError for null / arrays / objects, OverflowError for an
+                    # infinite float (JSON 1e999) - unless dominating type tests exclude the case
+                    tys = set()
+                    known_all = True
+                    for o in cl_:
+                        if o[0] == "R":
+                            t_ = _type_atoms(self.path_atoms(n, fn, sc, o[1]), o[1])
+                            if t_:
+                                tys |= t_
+                            else:
+                                known_all = False
+                        else:
+                            known_all = False
+                    excs = []
+                    if not known_all or tys & {"str", "float"}:
+                        excs.append("ValueError")
+                    if not known_all or tys - {"str", "int", "float", "bool"}:
+                        excs.append("TypeError")
+                    if not known_all or "float" in tys:
+                        excs.append("OverflowError")
+                    self.record(fn, n, "int()", "raises" if excs else "disarmed", ", ".join(excs) or "type known to be int")
+                    for e_ in excs:
+                        out.append((e_, f"int({norm(n.args[0])[:30]}) on client data" + {"OverflowError": " (an infinite float, e.g. JSON 1e999)",
+                                                                                         "TypeError": " (null / array / object)", "ValueError": ""}[e_]))
             elif nm == "bytes" and isinstance(f, ast.Name) and n.args and isinstance(n.args[0], ast.List):
                 for el in n.args[0].elts:
                     os_ = self.origins(el, fn, sc)
@@ -985,7 +1036,7 @@ class Prims:
                 path = b[1] + (k,)
                 atoms = self.path_atoms(n, fn, sc, path)
                 la = self.local_atoms(n, fn, sc)
-                present = any(a.kind in ("present", "bip32") and a.path == path for a in atoms | la)
+                present = any(a.kind in ("present", "bip32") and a.path == path for a in la) or self.ctx.validator_present(fn, path, la)
                 is_dict = not b[1] and any(a.kind == "type" and a.path == () and a.args == ("dict",) for a in la | atoms) \
                     or any(a.kind == "type" and a.path == b[1] and a.args == ("dict",) for a in atoms | la) \
                     or self._parent_is_dict(fn, b[1])
